@@ -246,6 +246,12 @@ def scalar_states(fn):
     return any(t in FUNDAMENTAL for t in ts)
 
 
+def new_control_has_own_match(db, ctl, callee_class):
+    rule = _control_rule1(callee_class, None)
+    r = db.records.get('%s<%s>' % (ctl, rule)) if rule else None
+    return bool(r) and any(m.get('n') == 'match' for m in r.get('methods', []))
+
+
 def check_fn(db, fn, never_false=frozenset()):
     """returns (problems [(rule, msg)], number of boundary calls seen, rows)"""
     out, nstates = paths(db, fn, never_false)
@@ -273,6 +279,11 @@ def check_fn(db, fn, never_false=frozenset()):
                     probs.append(('F-entry', 'the action is switched to %s but the sub-match does not go through Control< Rule >::match, so %s< Rule >::match is never consulted' % (tm2[-2], tm2[-2])))
                 if not switched and entry != 'free':
                     probs.append(('F-entry', 'the action is unchanged but the sub-match goes through Control< Rule >::match, which dispatches to Action< Rule >::match again'))
+            if entry == 'member' and len(tm2) >= 2 and len(own['tmpl']) >= 2 and tm2[-1] != own['tmpl'][-1] and isinstance(rule2, str) and rule2.startswith(own['tmpl'][-1] + '<') and new_control_has_own_match(db, tm2[-1], rule2):
+                # a rule or action that switches the control enters the attached rule through the NEW control's match.  The callee is known by the class that
+                # declares it, so this is only decidable when the new control declares a match of its own (one that merely inherits normal< Rule >::match
+                # is the same function whichever way it is named)
+                probs.append(('F-entry', 'the control is switched to %s but the sub-rule is entered through %s< Rule >::match, the match of the old control: a match() customised by the new control is skipped for the attached rule, one customised by the old control still runs for it' % (tm2[-1], own['tmpl'][-1])))
             exp = expected_frame(fn, own, i, c, nstates)
             if A2 is not None and exp['A'] is not None and A2 != exp['A']:
                 if not (tn == I + 'if_apply' and A2 == 1 and own['A'] == 1):
